@@ -200,3 +200,64 @@ func TestVerifReplayC19Long(t *testing.T) {
 		fmt.Println("REPLAY: not-reproduced (real code satisfies the property on this input)")
 	}
 }
+
+// Replay of VerifC19Ansi: the scenario's stream (three segments) in two Write calls split at the
+// scenario's position, through the real prefixed decorator; what reaches the destination, with
+// prefixes, line terminators and escape sequences removed, must be the stream with line
+// terminators and escape sequences removed.
+func TestVerifReplayC19Ansi(t *testing.T) {
+	data, err := os.ReadFile(os.Getenv("VERIF_SCENARIO"))
+	if err != nil {
+		t.Skip("no scenario")
+	}
+	var sc c19Scenario
+	json.Unmarshal(data, &sc)
+	segs := []string{"a", "\x1b[32m", "\n", "b\x1b[0m", "\x1b[1;31mc", "\r\n"}
+	num := func(k string) int {
+		if f, ok := sc.Inputs[k].(float64); ok {
+			return int(f)
+		}
+		return 0
+	}
+	stream := ""
+	for k := 0; k < 3; k++ {
+		stream += segs[num(fmt.Sprintf("segment.%d", k))%len(segs)]
+	}
+	in := []byte(stream)
+	cut := num("cut")
+	if cut > len(in) {
+		cut = len(in)
+	}
+	rec := &c19Rec{}
+	d := newPrefixedOutputWriter(&task.Task{Name: "tk"}, rec)
+	var bad []string
+	for _, p := range [][]byte{in[:cut], in[cut:]} {
+		if n, err := d.Write(p); err != nil || n != len(p) {
+			bad = append(bad, fmt.Sprintf("Write(%q) = %d, %v", p, n, err))
+		}
+	}
+	d.WriteFooter()
+	strip := func(b []byte) string {
+		return strings.NewReplacer("\r", "", "\n", "").Replace(string(ansiRegexp.ReplaceAllLiteral(b, nil)))
+	}
+	var got []byte
+	for _, w := range rec.writes {
+		s := string(w)
+		// the prefix carries the coloured task name: find the ": " that ends it
+		i := strings.Index(s, ": ")
+		if i < 0 || !strings.Contains(s[:i], "tk") || !strings.HasSuffix(s, "\r\n") {
+			bad = append(bad, fmt.Sprintf("malformed line %q", s))
+			continue
+		}
+		got = append(got, s[i+2:len(s)-2]...)
+	}
+	fmt.Printf("REPLAY: writes %q | %q; destination %q\n", in[:cut], in[cut:], rec.writes)
+	if strip(got) != strip(in) {
+		bad = append(bad, fmt.Sprintf("the lines carry %q, the task's output without terminators and escape sequences is %q", strip(got), strip(in)))
+	}
+	if len(bad) > 0 {
+		fmt.Println("REPLAY: reproduced:", strings.Join(bad, "; "))
+	} else {
+		fmt.Println("REPLAY: not-reproduced (real code satisfies the property on this input)")
+	}
+}
